@@ -3689,3 +3689,134 @@ def pk3(m, run):
     run.ob('PK3.derivative-control-points-exact', '%s :: %d (windows, order) cases on a %d x %d net of degrees (%d, %d)' % (fs.key, n, nu, nv, p, q), not bad,
            'A3.7 as a polynomial identity in the control points over rational knots' if not bad else
            'windows %s / %s, order %d: %s   [%d of %d cases]' % (bad[0][0] + (bad[0][1], len(bad), n)), 'geomdl/helpers.py:%d in %s' % (fs.node.lineno, fs.key))
+
+
+# ====================================================================================== C07: splitting exactly
+def rec_curve(made, p, kv, cps, rational, opts=None, origin='input'):
+    """recorder curve with exact knots and symbolic (homogeneous when rational) control points; set_ctrlpts / knotvector / degree are
+    recorded on the object itself, a deep copy and obj.__class__() give new recorder curves"""
+    from .skel import Sym
+    b = Bag('rec:Curve')
+    a = b._a
+    a['__isa__'] = (('BSpline', 'Curve'),)
+    a['_origin'], a['_opts'] = origin, dict(opts or {})
+    a['degree'], a['knotvector'], a['rational'], a['pdimension'], a['dimension'] = p, list(kv) if kv is not None else None, rational, 1, 2
+
+    def install(points):
+        a['_set'] = points
+        if rational:
+            a['ctrlptsw'] = points
+            a['ctrlpts'] = [[Sym('unweighted_%d_%d' % (i, c)) for c in range(2)] for i in range(len(points))]       # a different view: using it for a rational curve shows
+        else:
+            a['ctrlpts'] = points
+        a['ctrlpts_size'] = len(points)
+    if cps is not None:
+        install([list(x) for x in cps])
+    a['set_ctrlpts'] = Py(lambda sk, node, pts_, *r, **k: install([list(x) for x in pts_]), 'set_ctrlpts')
+    a['__deepcopy__'] = lambda x: rec_curve(made, x._a['degree'], x._a['knotvector'], x._a.get('_set'), rational, x._a['_opts'], 'deepcopy')
+    a['__class__'] = Py(lambda sk, node, *r, **k: rec_curve(made, None, None, None, rational, dict(k), 'constructed'), '__class__')
+    made.append(b)
+    return b
+
+
+def sp3(m, run):
+    """SP3: operations.split_curve interpreted on recorder curves with exact rational knots and symbolic control points (homogeneous ones
+    for the rational case): for every interior split parameter (inside a span, on a simple knot, on a double knot) the two pieces are
+    exactly the left and right part of the net obtained by raising the parameter to full multiplicity with single Boehm insertions, with
+    the knot vectors [knots < u, u x (p+1)] and [u x (p+1), knots > u]; the input object is left as it was; the domain ends are rejected"""
+    from fractions import Fraction as F
+    from .skel import Sym
+    from .poly import Poly
+    fi = m.func('operations.split_curve')
+
+    def boehm(P, kv, p, u):
+        k = max(i for i in range(len(kv) - 1) if kv[i] <= u < kv[i + 1])
+        s = sum(1 for x in kv if x == u)
+        Q = []
+        for i in range(len(P) + 1):
+            if i <= k - p:
+                Q.append(list(P[i]))
+            elif i >= k - s + 1:
+                Q.append(list(P[i - 1]))
+            else:
+                al = (u - kv[i]) / (kv[i + p] - kv[i])
+                Q.append([P[i][c] * al + P[i - 1][c] * (1 - al) for c in range(len(P[0]))])
+        return Q, sorted(kv + [u])
+    bad, n = [], 0
+    nets = [(2, [F(0)] * 3 + [F(1, 3), F(2, 3)] + [F(1)] * 3), (3, [F(-1)] * 4 + [F(0), F(1, 2), F(1, 2), F(2)] + [F(3)] * 4)]
+    for p, kv in nets:
+        npts = len(kv) - p - 1
+        for rational in (False, True):
+            hd = 3 if rational else 2
+            P = [[Poly.atom('P%d_%d' % (i, c)) for c in range(hd)] for i in range(npts)]
+            spans = sorted(set(kv[p:-p]))
+            params = [(a_ + b_) / 2 for a_, b_ in zip(spans, spans[1:])] + sorted(set(kv[p + 1:-(p + 1)]))
+            for u in params:
+                n += 1
+                made = []
+                obj = rec_curve(made, p, kv, [[Sym(x) for x in row] for row in P], rational)
+                obj._a['domain'] = (kv[p], kv[-(p + 1)])
+                before = (list(obj._a['knotvector']), [list(r_) for r_ in obj._a['_set']])
+                sk = SK(m, {('linalg', 'point_distance'): STD_ABSTRACTED[('linalg', 'point_distance')]})
+                sk.exact = True
+                why = None
+                try:
+                    out = sk.call(fi, [obj, u], {})
+                    s_ = sum(1 for x in kv if x == u)
+                    Q, kvq = [list(r_) for r_ in P], list(kv)
+                    for _ in range(p - s_):
+                        Q, kvq = boehm(Q, kvq, p, u)
+                    lkv = [x for x in kvq if x < u] + [u] * (p + 1)
+                    rkv = [u] * (p + 1) + [x for x in kvq if x > u]
+                    nl = len(lkv) - p - 1
+                    want = ((lkv, Q[:nl]), (rkv, Q[nl - 1:]))
+                    if not isinstance(out, (list, tuple)) or len(out) != 2:
+                        why = 'does not return two pieces'
+                    elif (list(obj._a['knotvector']), obj._a['_set']) != before or any(o is obj for o in out):
+                        why = 'the input curve is modified (or returned as a piece)'
+                    else:
+                        for name, piece, (wkv, wcp) in zip(('left', 'right'), out, want):
+                            a = piece._a
+                            got = a.get('_set')
+                            if a.get('degree') != p:
+                                why = 'the %s piece has degree %r' % (name, a.get('degree'))
+                            elif [F(x) for x in (a.get('knotvector') or [])] != wkv:
+                                why = 'the %s piece has the knot vector %s, expected %s' % (name, [str(x) for x in (a.get('knotvector') or [])], [str(x) for x in wkv])
+                            elif not isinstance(got, list) or len(got) != len(wcp):
+                                why = 'the %s piece has %r control points, expected %d' % (name, len(got) if isinstance(got, list) else got, len(wcp))
+                            else:
+                                for i, (g, w) in enumerate(zip(got, wcp)):
+                                    for c in range(hd):
+                                        sv_ = _as_sym(g[c]) if len(g) > c else None
+                                        if sv_ is None or not sv_.same(Sym(w[c])):
+                                            why = 'point %d of the %s piece is %s; the refined net has %r there%s' % (
+                                                i, name, repr(g)[:120], w[c], ' (a rational curve is split in homogeneous coordinates)' if rational else '')
+                                            break
+                                    if why:
+                                        break
+                            if why:
+                                break
+                except Violation as v:
+                    why = '%s %s' % (v.msg, v.where())
+                except Unsupported as ex:
+                    raise AnalysisError('%s: interpreter met an unsupported construct: %s' % (fi.key, ex))
+                if why:
+                    bad.append(((p, [str(x) for x in kv], str(u), rational), why))
+        # the domain ends are rejected
+        for u in (kv[p], kv[-(p + 1)]):
+            n += 1
+            made = []
+            obj = rec_curve(made, p, kv, [[Sym('P%d_%d' % (i, c)) for c in range(2)] for i in range(npts)], False)
+            obj._a['domain'] = (kv[p], kv[-(p + 1)])
+            sk = SK(m, {})
+            sk.exact = True
+            try:
+                sk.call(fi, [obj, u], {})
+                bad.append(((p, [str(x) for x in kv], str(u), False), 'a split at the domain end is not rejected'))
+            except Violation as v:
+                if v.rule != 'RAISE':
+                    bad.append(((p, [str(x) for x in kv], str(u), False), 'a split at the domain end fails with `%s` instead of being rejected' % v.msg[:80]))
+            except Unsupported as ex:
+                raise AnalysisError('%s: interpreter met an unsupported construct: %s' % (fi.key, ex))
+    run.ob('SP3.split-exact', '%s :: %d (curve, parameter, rational) cases' % (fi.key, n), not bad, 'pieces are the two halves of the fully refined net; input untouched; domain ends rejected' if not bad else
+           'degree %d, knots %s, u = %s, rational %s: %s   [%d of %d cases]' % (bad[0][0] + (bad[0][1], len(bad), n)), 'geomdl/operations.py:%d in %s' % (fi.node.lineno, fi.key))
